@@ -144,8 +144,14 @@ var vBases = []string{"Int8", "Int16", "UInt8", "Enum8", "Enum16", "Decimal", "D
 	"Array", "Nullable", "LowCardinality", "DateTime", "DateTime64", "Map", "FixedString", "String", "Tuple"}
 
 // vVocabType builds base | base(params) with symbolic parameter bytes.
-func vVocabType(tag string) ColumnType {
-	b := vBases[verifChoice(tag+".base", len(vBases))]
+func vVocabType(tag string, base int) (ColumnType, int) {
+	if base < 0 {
+		base = verifChoice(tag+".base", len(vBases))
+	}
+	return vVocabTypeOf(tag, vBases[base]), base
+}
+
+func vVocabTypeOf(tag, b string) ColumnType {
 	switch verifChoice(tag+".shape", 3) {
 	case 0:
 		return ColumnType(b)
@@ -163,8 +169,11 @@ func vVocabType(tag string) ColumnType {
 // VerifC19RelationVocab: symmetry and reflexivity over types assembled from the
 // library's own vocabulary of base names with symbolic or nested parameters.
 func VerifC19RelationVocab() {
-	a := vVocabType("a")
-	b := vVocabType("b")
+	a, ai := vVocabType("a", -1)
+	if verifParam("samebase", 0) == 0 {
+		ai = -1 // every pair of bases; otherwise longer parameters under one base
+	}
+	b, _ := vVocabType("b", ai)
 	verifAssert(!a.Conflicts(a), "vocab-reflexive")
 	verifAssert(a.Conflicts(b) == b.Conflicts(a), "vocab-symmetric")
 	if a.Base() != b.Base() && a.Base() != "" && b.Base() != "" {
